@@ -109,7 +109,7 @@ PLAN = {
         level="proof",
         verus=["C07_activations.rs", "C07_activation_whole.rs", "C07_linear.rs", "C07_softmax.rs"],
         kani=True,
-        native_checks=[("activation.elementwise", "bounded native grid: forward and backward of ReLU / LeakyReLU / Sigmoid / Tanh / Linear on flat tensors of length 1..5 and 3-D tensors of every extent triple up to 3 (non-square included): output shape and nesting = input's, every cell = the definition applied to the input cell at the same nested index (bit-exact)")],
+        native_checks=[("activation.elementwise", "bounded native grid: forward and backward of ReLU / LeakyReLU / Sigmoid / Tanh / Linear on flat tensors of length 1..5 and 3-D tensors of every extent triple up to 3 (non-square included): output shape and nesting = input's, every cell = the definition applied to the input cell at the same nested index (bit-exact for the piecewise-linear activations, up to rounding for sigmoid and tanh)")],
         undecided_clauses=[
             "soft-max shift invariance: not decided (under rounding (v+c)-max(v+c) need not equal v-max(v); the subtraction of the maximum "
             "is what keeps it finite, which IS decided for n = 2; the 3-entry harness does not finish within 3000 s and is disabled)",
@@ -193,7 +193,7 @@ PLAN = {
         level="proof",
         verus=["C15_tensor_ops.rs", "C15_transpose.rs", "C15_mean_pick.rs", "C15_dot_product.rs", "C15_clamp_whole.rs", "C15_inplace_whole.rs", "C15_hadamard3d.rs"],
         kani=True,
-        native_checks=[("tensor.elementwise", "bounded native grid: add / sub / mul / scaled Hadamard / div-by-scalar in place, clamp and the mean over 3 tensors on operands of ranks 1-D..4-D with every extent tuple up to 3 (non-square included): shape field and nesting unchanged, every cell = the operator on the operand cells at the same nested index (bit-exact); operands of different shapes refused"),
+        native_checks=[("tensor.elementwise", "bounded native grid: add / sub / mul / scaled Hadamard / div-by-scalar in place, clamp and the mean over 3 tensors on operands of ranks 1-D..4-D with every extent tuple up to 3 (non-square included): shape field and nesting unchanged, every cell = the operator on the operand cells at the same nested index (bit-exact; the mean up to rounding); operands of different shapes refused"),
                        ("tensor.linear", "bounded native grid: dot, outer product and transpose on every rows x cols up to 5 x 5 (non-square included), integer data (exact): each against its index definition, shapes included")],
         undecided_clauses=["add / sub / mul / scaled Hadamard / div-by-scalar in place and clamp are proved as WHOLE functions for every size of ranks 1-D..4-D (units tensor.*.whole, tensor.clamp; R57-R59), "
                            "dot and the outer product too (units tensor.dot, tensor.product; R22, R31, R50); the mean over k tensors stays at closure units + bounded harnesses",
